@@ -322,7 +322,7 @@ def run(chk):
         cases = replay_cases(chk.replay)
         chk.dist("replayed", len(cases))
         chk.obligation("corr:routing", "correspondence", run_cases(chk, cases, "replay"))
-        M.finish(chk)
+        M.finish(chk, I)
         return
     cases = load_corpus()
     chk.dist("corpus", len(cases))
@@ -340,4 +340,4 @@ def run(chk):
     pykka_stage(chk)
     if chk.tier == "thorough":
         old_code_stage(chk, 6000)
-    M.finish(chk)
+    M.finish(chk, I)
